@@ -653,7 +653,7 @@ def cases(rng, tier, worker, nworkers):
         i += 1
         if i % nworkers == worker:
             yield c
-    n_random = 2500 if tier == 'quick' else 48000 // nworkers
+    n_random = 4000 if tier == 'quick' else 200000 // nworkers
     for _ in range(n_random):
         yield _random_case(rng)
 
